@@ -199,6 +199,39 @@ def run(v, O):
             out.append((f'{label}: custom unit of the base usable', O.eq(d2['b'][0], v.x2)))
     return out
 '''
+FUNC_SRC = r'''
+def run(v, O):
+    # nodes whose value comes from a native function (add_function): imports and injections hand on the value the node has, the function is not run a second time
+    from scinumtools.dip import DIP
+    calls = []
+    def fn_volume(data):
+        calls.append(1)
+        return data['side'].value ** 3
+    def fn_flag(data):
+        return data['side'].value > 2.5
+    def fn_label(data):
+        return 'edge-' + str(int(data['side'].value))
+    def parse(text, base=None):
+        with DIP(base) as p:
+            _KEEP.append(p)
+            p.add_function('fn_volume', fn_volume); p.add_function('fn_flag', fn_flag); p.add_function('fn_label', fn_label)
+            p.add_string(text)
+            return p.parse()
+    out = []
+    env1 = parse('side float = 2 cm\nbody\n  volume float = (fn_volume) cm3\n  big bool = (fn_flag)\n  label str = (fn_label)\nside = 3 cm\ncopy {?body.*}\nagain float = {?copy.volume}\nsmall float = {?copy.volume} mm3\n'
+                 'one {?body.volume}\nflag bool = {?copy.big}\ntext str = {?copy.label}\nall\n  {?*}\nlast float = {?all.body.volume}')
+    d = env1.data(Format.TUPLE)
+    want = {'side': (3.0, 'cm'), 'body.volume': (8.0, 'cm3'), 'body.big': False, 'body.label': 'edge-2', 'copy.volume': (8.0, 'cm3'), 'copy.big': False, 'copy.label': 'edge-2', 'again': (8.0, 'cm3'), 'small': (8.0, 'mm3'),
+            'one.volume': (8.0, 'cm3'), 'flag': False, 'text': 'edge-2', 'all.body.volume': (8.0, 'cm3'), 'all.copy.volume': (8.0, 'cm3'), 'all.side': (3.0, 'cm'), 'last': (8.0, 'cm3')}
+    for k, w in want.items():
+        out.append((f'function-valued nodes, one text: {k}', O.same(d.get(k), w)))
+    env2 = parse('side = 5 cm\nspare {?body.volume}\ncheck float = {?spare.volume}\ndirect float = {?body.volume}\nfresh float = (fn_volume) cm3', env1)
+    d2 = env2.data(Format.TUPLE)
+    for k, w in {'spare.volume': (8.0, 'cm3'), 'check': (8.0, 'cm3'), 'direct': (8.0, 'cm3'), 'fresh': (125.0, 'cm3'), 'body.volume': (8.0, 'cm3'), 'side': (5.0, 'cm')}.items():
+        out.append((f'function-valued nodes, on top of the parsed environment: {k}', O.same(d2.get(k), w)))
+    out.append(('the base environment keeps its values', O.same(env1.data(Format.TUPLE).get('side'), (3.0, 'cm'))))
+    return out
+'''
 SLICES = [('string slice', 'person str = "Will Smith"\nsurname str = {?person}[5:]', 'surname', 'Smith'), ('string slice front', 'p str = "Will Smith"\ns str = {?p}[:4]', 's', 'Will'),
           ('single array element', 'sizes float[3] = [34,23.34,1e34] cm\nmy float = {?sizes}[1]', 'my', 23.34), ('array range', 'a int[4] = [1,2,3,4]\nb int[2] = {?a}[1:3]', 'b', [2, 3]),
           ('matrix column', 'm float[2,2] = [[34,23.34],[1,1e34]] cm\nc float[2] = {?m}[:,1]', 'c', [23.34, 1e34]), ('matrix row', 'm int[2,2] = [[1,2],[3,4]]\nr int[2] = {?m}[1,:]', 'r', [3, 4]),
@@ -280,12 +313,13 @@ def scenarios(tier, seed):
     S.append(Scenario('remote', REMOTE_SRC, inp, consts={}, preamble=PRE, what='second file through $source', samples=1))
     S.append(Scenario('base-env-without-nodes', BASE2_SRC, {'x1': 'real', 'x2': 'real', 'x3': 'real', 'k1': 'int'}, ['v.x3 > 0', 'v.x2 > 0'], consts={}, preamble=PRE, what='parse on top of a base environment that has no nodes', samples=2))
     S.append(Scenario('base-env', BASE_SRC, inp, ['v.x3 > 0', 'v.x2 > 0'], consts={}, preamble=PRE, what='parse on top of a base environment', samples=2))
+    S.append(Scenario('function-valued', FUNC_SRC, {}, consts={}, preamble=PRE, what='imports and injections of nodes defined through add_function (concrete)', samples=1))
     S.append(Scenario('slices', SLICE_SRC, {}, consts={'cases': SLICES}, preamble=PRE, what='sliced injections (concrete)', samples=1))
     S.append(Scenario('canary/stale', INJ_SRC, inp, consts={'text': 'a float = {x1} m\na = {x2} m\nb float = {?a}', 'expect': [('b', 'v.x1', 'm')]}, preamble=PRE, canary=True))
     return S
 
 
-NT = 13
+NT = 14
 
 
 def tasks(tier, seed):
